@@ -1,7 +1,8 @@
 /* drv_num.c — numeric accessors and mutators (C10).  Same script and observation format as
  * ocaml/drv_num.ml:  "<node> <strtod> <op>;<op>;…"  (the strtod field is the model's oracle
  * argument and is ignored here: the library calls libc itself).
- * errno is cleared before every call and read directly after it.  Undefined behaviour
+ * errno is cleared before every call — or preset by an "@<c>" op prefix (0, R = ERANGE, I = EINVAL,
+ * M = ENOMEM, X = a large value) — and read directly after it.  Undefined behaviour
  * (float-cast-overflow, signed-integer-overflow) aborts under UBSan and is reported by the
  * framework as CRASH ubsan:… for the whole line. */
 #include "common.h"
@@ -44,30 +45,43 @@ void run_case(char *rest)
 	o = jv_parse(&p, &err);
 	if (err || *p) { printf("BADNODE"); json_object_put(o); return; }
 	for (tok = strtok_r(sp2 + 1, ";", &save); tok; tok = strtok_r(NULL, ";", &save)) {
-		const char *a = tok + 2;
-		int e, r;
+		const char *a;
+		int e, r, pre = 0;
 		if (!first) printf(" | ");
 		first = 0;
+		if (tok[0] == '@') {
+			switch (tok[1]) {
+			case '0': pre = 0; break;
+			case 'R': pre = ERANGE; break;
+			case 'I': pre = EINVAL; break;
+			case 'M': pre = ENOMEM; break;
+			case 'X': pre = 9999; break;
+			default: printf("BADOP"); goto out;
+			}
+			tok += 2;
+		}
 		if (!tok[0] || !tok[1]) { printf("BADOP"); break; }
-		errno = 0;
+		a = tok + 2;
+		errno = pre;
 		if (!strcmp(tok, "gb")) { int v = json_object_get_boolean(o); e = errno; printf("%d %s", v, errno_name(e)); }
 		else if (!strcmp(tok, "gi")) { int32_t v = json_object_get_int(o); e = errno; printf("%" PRId32 " %s", v, errno_name(e)); }
 		else if (!strcmp(tok, "gl")) { int64_t v = json_object_get_int64(o); e = errno; printf("%" PRId64 " %s", v, errno_name(e)); }
 		else if (!strcmp(tok, "gu")) { uint64_t v = json_object_get_uint64(o); e = errno; printf("%" PRIu64 " %s", v, errno_name(e)); }
 		else if (!strcmp(tok, "gd")) { double v = json_object_get_double(o); e = errno; put_dbl(v); printf(" %s", errno_name(e)); }
 		else {
-			if (tok[0] == 's' && tok[1] == 'i') { long v = strtol(a, NULL, 10); errno = 0; r = json_object_set_int(o, (int)v); }
-			else if (tok[0] == 's' && tok[1] == 'l') { long long v = strtoll(a, NULL, 10); errno = 0; r = json_object_set_int64(o, (int64_t)v); }
-			else if (tok[0] == 's' && tok[1] == 'u') { unsigned long long v = strtoull(a, NULL, 10); errno = 0; r = json_object_set_uint64(o, (uint64_t)v); }
-			else if (tok[0] == 's' && tok[1] == 'd') { uint64_t b = strtoull(a, NULL, 16); double d; memcpy(&d, &b, 8); errno = 0; r = json_object_set_double(o, d); }
-			else if (tok[0] == 's' && tok[1] == 'b') { errno = 0; r = json_object_set_boolean(o, a[0] != '0'); }
-			else if (tok[0] == 'i' && tok[1] == 'n') { long long v = strtoll(a, NULL, 10); errno = 0; r = json_object_int_inc(o, (int64_t)v); }
+			if (tok[0] == 's' && tok[1] == 'i') { long v = strtol(a, NULL, 10); errno = pre; r = json_object_set_int(o, (int)v); }
+			else if (tok[0] == 's' && tok[1] == 'l') { long long v = strtoll(a, NULL, 10); errno = pre; r = json_object_set_int64(o, (int64_t)v); }
+			else if (tok[0] == 's' && tok[1] == 'u') { unsigned long long v = strtoull(a, NULL, 10); errno = pre; r = json_object_set_uint64(o, (uint64_t)v); }
+			else if (tok[0] == 's' && tok[1] == 'd') { uint64_t b = strtoull(a, NULL, 16); double d; memcpy(&d, &b, 8); errno = pre; r = json_object_set_double(o, d); }
+			else if (tok[0] == 's' && tok[1] == 'b') { errno = pre; r = json_object_set_boolean(o, a[0] != '0'); }
+			else if (tok[0] == 'i' && tok[1] == 'n') { long long v = strtoll(a, NULL, 10); errno = pre; r = json_object_int_inc(o, (int64_t)v); }
 			else { printf("BADOP"); break; }
 			e = errno;
 			printf("%d %s ", r, errno_name(e));
 			ndump(o);
 		}
 	}
+out:
 	json_object_put(o);
 	if (xa_live != 0) printf(" | LEAK %ld", xa_live);
 }
